@@ -79,7 +79,15 @@ class Gen:
         self.tag += 1
         t = "t%d" % self.tag
         a, b, c = self.v(), self.v(), self.v()
-        k = r.below(34)
+        k = r.below(36)
+        if k >= 34:
+            self.note("operator-method")
+            op = r.choice(["+", "-", "*", "/", "%", "mod", "div"])
+            form = r.choice(["(%s obj %d)" % (op, r.range(1, 9)), "(%s obj k)" % op, "(%s %d obj)" % (op, r.range(1, 9)), "(%s obj (mk 3))" % op])
+            return ("(do (def proto @{:%s (fn [a b] (def tmp @[a b %s]) (table/setproto @{:x [(a :x) (if (table? b) (b :x) b)] :held tmp} (table/getproto a))) "
+                    ":r%s (fn [a b] (table/setproto @{:x [:r (a :x) b]} (table/getproto a)))}) (defn mk [x] (table/setproto @{:x x} proto)) "
+                    "(def obj (mk %s)) (def k %d) (var acc nil) (for i 0 %d (set acc %s)) (set %s acc) (show \"%s\" (acc :x)))"
+                    % (op, b, op, self.val(1), r.range(1, 9), r.range(1, 6), form, a, t))
         if k < 4:
             self.note("assign")
             return "(set %s %s)" % (a, self.val(3))
